@@ -34,7 +34,23 @@ def parse_ref(ref):
 # =========================================================================== generation
 
 def gen_design(rng, n_nodes, kinds, max_inputs=8, maxw=70, hier_depth=0, feedback=0.0,
-               n_outputs=None, seq_kinds=None, seq_frac=0.0):
+               n_outputs=None, seq_kinds=None, seq_frac=0.0, big=False):
+    """big: widths and input counts beyond the usual ones (catalog.set_big) for this design"""
+    from .catalog import set_big
+    if big:
+        set_big(True)
+        try:
+            d = gen_design(rng, n_nodes, kinds, max_inputs=max_inputs, maxw=min(maxw * 4, 260), hier_depth=hier_depth, feedback=feedback,
+                           n_outputs=n_outputs, seq_kinds=seq_kinds, seq_frac=seq_frac)
+        finally:
+            set_big(False)
+        d['big'] = True
+        return d
+    return _gen_design(rng, n_nodes, kinds, max_inputs, maxw, hier_depth, feedback, n_outputs, seq_kinds, seq_frac)
+
+
+def _gen_design(rng, n_nodes, kinds, max_inputs=8, maxw=70, hier_depth=0, feedback=0.0,
+                n_outputs=None, seq_kinds=None, seq_frac=0.0):
     """Seeded generator.  Nodes come out in dataflow order (ids increase along dataflow);
     feedback edges are added afterwards and only from Moore sequential outputs, so no
     combinational cycle can arise."""
